@@ -7,19 +7,21 @@ import re
 
 root = os.path.dirname(os.path.dirname(os.path.abspath(__file__)))
 rows = ["| id | breaks | change | what it needs | caught by | remark |", "|---|---|---|---|---|---|"]
-caught = missed = 0
+caught = missed = later = 0
 for f in sorted(glob.glob(os.path.join(root, "seeded", "*", "meta.json"))):
     m = json.load(open(f))
     sid = os.path.basename(os.path.dirname(f))
     det = ", ".join(m.get("detected_by") or []) or "**missed**"
     if m.get("detected_by"):
         caught += 1
+        if any(w in m.get("note", "").lower() for w in ("missed at first", "marginal at first", "first try ended", "undecided")):
+            later += 1
     else:
         missed += 1
     cell = lambda s: str(s).replace("|", "/").replace("\n", " ")
     rows.append(f"| {sid} | {m['breaks_property']} | {cell(m['summary'])} | {cell(m['needs'])} | {det} | {cell(m.get('note', ''))} |")
 rows.append("")
-rows.append(f"Totals: {caught + missed} confirmed changes, {caught} caught by a registered check, {missed} not caught.")
+rows.append(f"Totals: {caught + missed} confirmed changes; {caught - later} were caught by the check as it stood when the change arrived, {later} only after the check had been extended (the extension is named in the remark and in `checks/registry.py` EXTENSIONS), {missed} are not caught.")
 text = "\n".join(rows)
 p = os.path.join(root, "DESIGN.md")
 s = open(p).read()
